@@ -72,7 +72,7 @@ class Lower:
     def register_specializations(self):
         """complete class template specialisations (Writer<std::string>, Writer<int>) become records named like their methods' prefix"""
         for n in list(self.ast.byid.values()):
-            if n.get('kind') == 'ClassTemplateSpecializationDecl' and n.get('completeDefinition') and n.get('name') in ('Writer',):
+            if n.get('kind') == 'ClassTemplateSpecializationDecl' and n.get('completeDefinition') and n.get('name') in ('Writer',) + tuple(self.types.real):
                 args = [a for a in n.get('inner', []) if a.get('kind') == 'TemplateArgument']
                 if args and 'type' in args[0]:
                     try:
@@ -829,7 +829,7 @@ class Lower:
             if name in ('size', 'clear', 'begin'):
                 return 'umap_%s__%s(%s)' % (m, name, optr)
             if name == 'find':
-                return 'umap_%s__find(%s, %s)' % (m, optr, self.ref_arg(args[0], 'const X &') if False else self.addr(self.ex(args[0])))
+                return 'umap_%s__find(%s, %s)' % (m, optr, self.elem_arg(args[0], t.args[0]))
             raise LowerError("unordered_map::" + name)
         if cls == 'uptr':
             if name in ('get',):
@@ -943,7 +943,7 @@ class Lower:
             m = self.types.mangle(t.args[0]) + '_' + self.types.mangle(t.args[1])
             self.types.ctype(t)
             if name == 'operator[]':
-                return '(*umap_%s__index(%s, %s))' % (m, self.addr(self.ex(a0)), self.addr(self.ex(args[1])))
+                return '(*umap_%s__index(%s, %s))' % (m, self.addr(self.ex(a0)), self.elem_arg(args[1], t.args[0]))
             raise LowerError("unordered_map " + name)
         if cls == 'iter':
             if name in ('operator!=', 'operator=='):
@@ -1100,6 +1100,10 @@ class Lower:
             self.cur.calls.append(cn)
             self.cur.calldecls[cn] = ctor_decl
             return '%s(%s)' % (cn, ', '.join(self.args_for(ctor_decl, args)))
+        if cls == 'handle' and t.name == 'boost::any' and len(args) == 1 and t.name in self.types.opaque:
+            # boost::any(const T&): tagged union constructor of the prelude
+            self.cur.libcalls.append('boost::any(T)')
+            return 'any__from_%s(%s)' % (self.types.mangle(qt(strip(args[0]))), self.addr(self.ex(args[0])))
         if cls == 'handle' or cls == 'function':
             raise LowerError("construction of library type %r" % t)
         return self.ex(args[0])
@@ -1295,6 +1299,7 @@ class Lower:
             self.cur.locals.append((name, ct0))
             self.cur.hoisted.append('%s %s;' % (ct0, name))
             return
+        if pt.kind == 'arr' and not pt.arr.isdigit():
             # VLA (writer.cpp): kept as a C VLA; its bound must be the name of a local (clang prints the bound in the type)
             bound = pt.arr
             if not any(bound == n for n, _ in self.cur.locals) and not any(bound == p[1] for p in self.cur.params):
